@@ -109,12 +109,103 @@ def ensure_coq_makefile():
             raise RuntimeError("coq_makefile failed: " + out)
 
 
+COQ_WARN = "-notation-overridden,-deprecated-hint-without-locality,-deprecated-instance-without-locality,-ambiguous-paths"
+
+
+def _coq_deps():
+    """{file.v: [dep.v ...]} for every source of the project, from coqdep (reads sources only)."""
+    srcs = coq_sources()
+    rc, out = sh(["coqdep", "-R", ".", "Qryn"] + srcs, cwd=COQ, timeout=300)
+    deps = {}
+    for ln in out.splitlines():
+        if ":" not in ln or ln.startswith("***"):
+            continue
+        lhs, rhs = ln.split(":", 1)
+        tg = [x for x in lhs.split() if x.endswith(".vo")]
+        if not tg:
+            continue
+        v = tg[0][:-1]
+        deps[v] = [x[:-1] for x in rhs.split() if x.endswith(".vo")]
+    for s in srcs:
+        deps.setdefault(s, [])
+    return deps
+
+
+def _compile_one(v, deps, timeout):
+    """compile v (if stale) under a per-file lock; returns (rc, output)"""
+    vo = os.path.join(COQ, v + "o")
+    src = os.path.join(COQ, v)
+
+    def stale():
+        if not os.path.exists(vo):
+            return True
+        m = os.path.getmtime(vo)
+        if os.path.getmtime(src) > m:
+            return True
+        for d in deps.get(v, []):
+            dvo = os.path.join(COQ, d + "o")
+            if os.path.exists(dvo) and os.path.getmtime(dvo) > m:
+                return True
+        return False
+    if not stale():
+        return 0, ""
+    with Lock("coqfile_" + v.replace("/", "_")):
+        if not stale():
+            return 0, ""
+        rc, out = sh(["coqc", "-R", ".", "Qryn", "-w", COQ_WARN, v], cwd=COQ, timeout=timeout)
+        return rc, "COQC %s\n%s" % (v, out)
+
+
 def coq_make(targets=None, jobs=16, timeout=1500):
-    with Lock("coq"):
-        ensure_coq_makefile()
-        cmd = ["make", "-j%d" % jobs, "-k"] + (targets or [])
-        rc, out = sh(cmd, cwd=COQ, timeout=timeout)
-        return rc, out
+    """Builds the given .vo targets (default: every source) with their dependency cones. Each file is
+    compiled under its own lock, so concurrent builders only wait for each other on shared files.
+    A full .vo build (never -vos/-vok)."""
+    from concurrent.futures import ThreadPoolExecutor, wait, FIRST_COMPLETED
+    deps = _coq_deps()
+    if targets:
+        want = []
+        for tg in targets:
+            v = tg[:-1] if tg.endswith(".vo") else tg
+            if v not in deps:
+                return 2, "no such Coq source: %s" % v
+            want.append(v)
+    else:
+        want = list(deps)
+    cone = set()
+    stack = list(want)
+    while stack:
+        v = stack.pop()
+        if v in cone:
+            continue
+        cone.add(v)
+        stack += [d for d in deps.get(v, []) if d in deps]
+    done, failed, log = set(), set(), []
+    pending = set(cone)
+    running = {}
+    with ThreadPoolExecutor(max_workers=jobs) as ex:
+        while pending or running:
+            for v in sorted(pending):
+                ds = [d for d in deps.get(v, []) if d in cone]
+                if any(d in failed for d in ds):
+                    failed.add(v); pending.discard(v)
+                    log.append("SKIP %s (a dependency failed)" % v)
+                elif all(d in done for d in ds):
+                    pending.discard(v)
+                    running[ex.submit(_compile_one, v, deps, timeout)] = v
+            if not running:
+                if pending:   # dependency cycle or all blocked
+                    for v in pending:
+                        failed.add(v)
+                    pending = set()
+                continue
+            fin, _ = wait(list(running), return_when=FIRST_COMPLETED)
+            for f in fin:
+                v = running.pop(f)
+                rc, out = f.result()
+                if out:
+                    log.append(out.rstrip())
+                (done if rc == 0 else failed).add(v)
+    return (1 if failed else 0), "\n".join(log)
 
 
 def scan_forbidden(files=None):
@@ -234,8 +325,8 @@ class Check:
                 self.obligation("theorem " + t, False, "build failed: %s" % (failing[-3:],))
             self.build_log = out
             return False
-        with Lock("coq"):
-            rc, pout = sh(["coqc", "-R", ".", "Qryn", "-w", "-notation-overridden", rel], cwd=COQ, timeout=900)
+        with Lock("coqfile_" + rel.replace("/", "_")):
+            rc, pout = sh(["coqc", "-R", ".", "Qryn", "-w", COQ_WARN, rel], cwd=COQ, timeout=900)
         self.checker_cmds.append("coqc -R . Qryn " + rel + "  (Print Assumptions under every theorem)")
         verdicts = parse_assumptions(pout)
         if rc != 0 or len(verdicts) < len(thms):
@@ -254,8 +345,7 @@ class Check:
 
     def coqchk(self, mods):
         """thorough tier: independent re-check of compiled files."""
-        with Lock("coq"):
-            rc, out = sh(["coqchk", "-silent", "-o", "-R", ".", "Qryn"] + mods, cwd=COQ, timeout=3000)
+        rc, out = sh(["coqchk", "-silent", "-o", "-R", ".", "Qryn"] + mods, cwd=COQ, timeout=3000)
         self.checker_cmds.append("coqchk -silent -o -R . Qryn " + " ".join(mods))
         self.extra["coqchk_tail"] = out.splitlines()[-25:]
         self.obligation("coqchk " + " ".join(mods), rc == 0, out[-800:])
@@ -274,6 +364,32 @@ class Check:
                 os.remove(os.path.join(d, name + ext))
             except OSError:
                 pass
+        return rc, out
+
+    # ---------------------------------------------------------------- OCaml extraction (volume runs)
+    def ocaml_eval(self, name, extract_v, module, cases_ml, driver, timeout=1200):
+        """Extract coq/extract/<extract_v> (ExtrOcamlBasic+ExtrOcamlString only) to <module>.ml in a scratch
+        directory, compile it with the generated cases (OCaml text; prelude + `let cases = [...]`) and
+        ocaml/<driver>, run, return (rc, stdout). The extraction is re-run on every call so that it always
+        reflects the current models (their .vo must have been built: call coq_make first)."""
+        d = os.path.join(BUILD, "ocaml", repo_tag(), name)
+        os.makedirs(d, exist_ok=True)
+        t = time.time()
+        rc, out = sh(["coqc", "-R", COQ, "Qryn", "-w", "-extraction", os.path.join(COQ, "extract", extract_v)], cwd=d, timeout=600)
+        if rc != 0:
+            return rc, "extraction failed: " + out[-2000:]
+        prelude = open(os.path.join(VERIF, "ocaml", "prelude.ml")).read()
+        open(os.path.join(d, "cases.ml"), "w").write("open %s\n%s\n%s\n" % (module.capitalize(), prelude, cases_ml))
+        import shutil
+        shutil.copy(os.path.join(VERIF, "ocaml", driver), os.path.join(d, "driver.ml"))
+        rc, out = sh(["sh", "-c", "ulimit -s unlimited 2>/dev/null; exec ocamlfind ocamlopt -w -a -inline 0 -o run %s.mli %s.ml cases.ml driver.ml" % (module, module)],
+                     cwd=d, timeout=timeout)
+        if rc != 0:
+            return rc, "ocaml build failed: " + out[-3000:]
+        tb = time.time() - t
+        rc, out = sh([os.path.join(d, "run")], cwd=d, timeout=timeout)
+        self.log("ocaml eval %s rc=%d (extract+build %.1fs, total %.1fs)" % (name, rc, tb, time.time() - t))
+        self.checker_cmds.append("coqc extract/%s -> ocamlopt -> run (model side of the correspondence)" % extract_v)
         return rc, out
 
     # ---------------------------------------------------------------- Go harness
